@@ -485,6 +485,32 @@ pub fn k7(dir: &str, thorough: bool, seed: u64) {
                             }
                         }
                     }
+                    // scope interplay: the same sub-formula (patterns, wild-cards, one-variable and closed formulae) evaluated
+                    // in two different quantifier / domain contexts, in both orders, in one formula and across a batch
+                    if k >= 2 {
+                        let subs: Vec<String> = vec![
+                            format!("(!{{y}}: AG EF {{y}})"), format!("(!{{y}}: AX {{y}})"), format!("%p%"), format!("(EX {a0})"),
+                            format!("({{x}} & %q%)"), format!("(AF {{x}})"), format!("(!{{y}}: ({{y}} & EX {{x}}))"), format!("(~{a0} EU %p%)"),
+                        ];
+                        let ctxs: Vec<(&str, &str)> = vec![
+                            ("(3{x}: @{x}: ", ")"), ("(3{x} in %s%: @{x}: ", ")"), ("(!{x} in %d%: ", ")"), ("(V{x} in %e%: ", ")"),
+                            ("(3{x} in %z%: ", ")"), ("(!{x}: ", ")"),
+                        ];
+                        let n_pairs = if thorough { 40 } else { 6 };
+                        for _ in 0..n_pairs {
+                            let g = rng.pick(&subs).clone();
+                            let (a1, b1) = ctxs[rng.below(ctxs.len())];
+                            let (a2, b2) = ctxs[rng.below(ctxs.len())];
+                            let f1 = format!("{a1}{g}{b1}");
+                            let f2 = format!("{a2}{g}{b2}");
+                            if rng.below(2) == 0 {
+                                batches.push(vec![f1, f2]);
+                            } else {
+                                let op = ["&", "|", "EU", "=>"][rng.below(4)];
+                                batches.push(vec![format!("({f1} {op} {f2})")]);
+                            }
+                        }
+                    }
                     for formulas in batches {
                         let variant = "ext_dirty";
                         let ans = run_variant(&xg, variant, &formulas, &ctx);
